@@ -14,7 +14,7 @@ from ..dataflow import RD
 from ..loader import AnalysisError, FuncInfo, Tree, ancestors, unparse, walk_function
 from ..poly import RF, D, equal, sym
 from ..report import Check
-from ..terms import Opaque, TermEval, Tup
+from ..terms import Opaque, TermEval, Tup, vkey
 
 PID = "C02"
 HEL = "ampform.helicity"
@@ -23,17 +23,102 @@ GEN_KIN = "ampform.helicity::_generate_kinematic_variables"
 BUILDER = f"{HEL}::HelicityAmplitudeBuilder"
 
 
+DECAY_CLASS = "ampform.helicity.decay::TwoBodyDecay"
+
+
+def abstract_instance(te: TermEval, tree: Tree, cls_qual: str, key: tuple):
+    """An abstract instance of a declared record class: one entry per annotated field.  A field declared
+    as a fixed-length ``tuple[A, B]`` is a tuple value of that length whose items are the very atoms that
+    indexing the field produces (``x.children[0]``), so that indexing, unpacking (``a, b = x.children``)
+    and iterating (``for c in x.children``) all denote the same elements; every other field is the opaque
+    attribute path.  The length comes from the declaration, not from the use."""
+    cls = tree.cls(cls_qual)
+    base = Opaque(key)
+    struct: dict = {}
+    for st in cls.node.body:
+        if not (isinstance(st, ast.AnnAssign) and isinstance(st.target, ast.Name)):
+            continue
+        name = st.target.id
+        attr = te._attr_of(base, [name], st)
+        ann = st.annotation
+        if isinstance(ann, ast.Constant) and isinstance(ann.value, str):
+            try:
+                ann = ast.parse(ann.value, mode="eval").body
+            except SyntaxError:
+                ann = st.annotation
+        elts = None
+        if isinstance(ann, ast.Subscript) and unparse(ann.value) in {"tuple", "Tuple", "typing.Tuple"}:
+            elts = ann.slice.elts if isinstance(ann.slice, ast.Tuple) else [ann.slice]
+            if any(isinstance(e, ast.Constant) and e.value is Ellipsis for e in elts):
+                elts = None
+        if elts is not None:
+            struct[name] = Tup([te.ev(ast.parse(f"_[{i}]", mode="eval").body, {"_": attr}) for i in range(len(elts))])
+        else:
+            struct[name] = attr
+    if not struct:
+        raise AnalysisError(f"vanished anchor: {cls_qual} declares no fields")
+    return struct
+
+
+def decay_value(te: TermEval, tree: Tree, key: tuple = ("decay",)):
+    return abstract_instance(te, tree, DECAY_CLASS, key)
+
+
+MASS_SYMBOL = "ampform.kinematics.lorentz::get_invariant_mass_symbol"
+ANGLE_SYMBOLS = "ampform.helicity.naming::get_helicity_angle_symbols"
+TRANSITION = Opaque(("transition",))
+NODE_ID = sym("node_id")
+
+
 def decay_evaluator(tree: Tree) -> TermEval:
+    """A term evaluator for functions of ``(transition, node_id)``.  The decay of THAT node is the abstract
+    record ``decay`` (any other arguments give another record); the functions that NAME the kinematic symbols
+    are the leaves: the invariant mass symbol of decay.parent / children[0] / children[1] in the transition's
+    topology is MASS / MASS1 / MASS2, the angle symbols of decay.children[0] are (PHI, THETA), and any other
+    (topology, state) is an opaque application.  Everything between (``_generate_kinematic_variables`` or
+    whatever helper the package uses) is evaluated, so PHI means "phi of children[0] of this decay" however
+    the code gets there."""
     te = TermEval(tree)
-    te.overrides[FROM_TRANSITION] = lambda _te, args, kwargs: Opaque(("decay",))
-    te.overrides[GEN_KIN] = lambda _te, args, kwargs: Tup([sym("MASS"), sym("PHI"), sym("THETA")])
+    ft = tree.func(FROM_TRANSITION)
+    names = ft.params[1:] if ft.params and ft.params[0] in {"cls", "self"} else ft.params
+
+    def from_transition(_te, args, kwargs):
+        given = {**dict(zip(names, args)), **kwargs}
+        if len(args) > len(names) or set(given) != set(names):
+            raise AnalysisError("TwoBodyDecay.from_transition: call does not bind (transition, node_id)")
+        keys = tuple(vkey(given[n]) for n in names)
+        if keys == (vkey(TRANSITION), vkey(NODE_ID)):
+            return decay_value(_te, tree)
+        return decay_value(_te, tree, ("decay", keys))
+
+    te.overrides[FROM_TRANSITION] = from_transition
+    env = {"decay": decay_value(te, tree), "transition": TRANSITION}
+    topo = vkey(te.ev(ast.parse("transition.topology", mode="eval").body, env))
+    state = {vkey(te.ev(ast.parse(text, mode="eval").body, env)): role
+             for role, text in (("MASS", "decay.parent.id"), ("MASS1", "decay.children[0].id"), ("MASS2", "decay.children[1].id"))}
+
+    def leaf(qual, make):
+        f = tree.func(qual)
+        if len(f.params) != 2:
+            raise AnalysisError(f"vanished anchor: {qual}(topology, state_id)")
+
+        def override(_te, args, kwargs):
+            bound = _te.bind_params(f, args, kwargs)
+            vals = [bound[p_] for p_ in f.params]
+            role = state.get(vkey(vals[1])) if vkey(vals[0]) == topo else None
+            return make(_te, role, vals)
+
+        te.overrides[qual] = override
+
+    leaf(MASS_SYMBOL, lambda _te, role, vals: sym(role) if role else _te.app("mass-symbol", vals))
+    leaf(ANGLE_SYMBOLS, lambda _te, role, vals: Tup([sym("PHI"), sym("THETA")]) if role == "MASS1" else Tup([_te.app("phi-symbol", vals), _te.app("theta-symbol", vals)]))
     return te
 
 
 def path(te: TermEval, text: str) -> RF:
     """The atom that the evaluator produces for an attribute path on ``decay``."""
     node = ast.parse(text, mode="eval").body
-    return te._rf(te.ev(node, {"decay": Opaque(("decay",))}))
+    return te._rf(te.ev(node, {"decay": decay_value(te, te.tree)}))
 
 
 def _show_val(v) -> str:
@@ -54,6 +139,8 @@ def _show_cond(cond) -> str:
         return f"{_show_val(cond.lhs)} {cond.op} {_show_val(cond.rhs)}"[:80]
     if isinstance(cond, Opaque) and cond.key and cond.key[0] == "else-of":
         return "otherwise"
+    if isinstance(cond, Opaque) and isinstance(cond.key, tuple) and len(cond.key) == 2 and cond.key[0] == "test":
+        return str(cond.key[1])[:80]  # a test outside the term grammar: its text with the locals numbered
     return repr(cond)[:60]
 
 
@@ -79,31 +166,38 @@ def _same(te: TermEval, got, want: RF) -> bool:
 def check_wigner_d(ctx: Check, tree: Tree) -> None:
     D.reset()
     te = decay_evaluator(tree)
+    te.fork = True  # every path of the function (and of the helpers it calls) is judged separately
     fn = tree.func(f"{HEL}::formulate_isobar_wigner_d")
-    val = te.eval_function(fn, [Opaque(("transition",)), sym("node_id")])
-    apps = extract_apps(te, val, "D")
-    if len(apps) != 1:
-        raise AnalysisError("formulate_isobar_wigner_d does not return exactly one Wigner-D")
-    got = apps[0]
-    want = {
-        "j": path(te, "decay.parent.particle.spin"),
-        "m": path(te, "decay.parent.spin_projection"),
-        "mp": path(te, "decay.children[0].spin_projection") - path(te, "decay.children[1].spin_projection"),
-        "alpha": -sym("PHI"),
-        "beta": sym("THETA"),
-        "gamma": RF.const(0),
-    }
-    problems = []
-    for role, w in want.items():
-        g = got.get(role)
-        if g is None:
-            problems.append(f"{role} missing")
-        elif not _same(te, g, w):
-            problems.append(f"{role} = {g!r} instead of {w!r}")
-    ctx.verdict(not problems, "R-TERM", f"{fn.qual}::roles", tree.loc(fn.node),
-                "Wigner-D of a node: D^J_{m, l1-l2}(-phi, theta, 0) with J, m of the parent and l1, l2 of children[0], children[1]", problems or None)
-    is_single = te.single_atom(val) is not None
-    ctx.verdict(is_single, "R-TERM", f"{fn.qual}::bare", tree.loc(fn.node), "formulate_isobar_wigner_d returns the bare Wigner-D (no extra factor)")
+    res = te.eval_function(fn, [TRANSITION, NODE_ID])
+    from ..terms import PW
+
+    paths = [(v, c) for v, c in res.branches] if isinstance(res, PW) else [(res, None)]
+    for val, cond in paths:
+        on = "" if cond is None else f" on the path `{_show_cond(cond)}`"
+        suffix = "" if cond is None else f"::path {_show_cond(cond)}"
+        apps = extract_apps(te, val, "D")
+        if len(apps) != 1:
+            raise AnalysisError(f"formulate_isobar_wigner_d does not return exactly one Wigner-D{on}")
+        got = apps[0]
+        want = {
+            "j": path(te, "decay.parent.particle.spin"),
+            "m": path(te, "decay.parent.spin_projection"),
+            "mp": path(te, "decay.children[0].spin_projection") - path(te, "decay.children[1].spin_projection"),
+            "alpha": -sym("PHI"),
+            "beta": sym("THETA"),
+            "gamma": RF.const(0),
+        }
+        problems = []
+        for role, w in want.items():
+            g = got.get(role)
+            if g is None:
+                problems.append(f"{role} missing")
+            elif not _same(te, g, w):
+                problems.append(f"{role} = {g!r} instead of {w!r}")
+        ctx.verdict(not problems, "R-TERM", f"{fn.qual}::roles{suffix}", tree.loc(fn.node),
+                    f"Wigner-D of a node{on}: D^J_{{m, l1-l2}}(-phi, theta, 0) with J, m of the parent, l1, l2 of children[0], children[1] and the angle symbols of children[0]", problems or None)
+        is_single = te.single_atom(val) is not None
+        ctx.verdict(is_single, "R-TERM", f"{fn.qual}::bare{suffix}", tree.loc(fn.node), f"formulate_isobar_wigner_d returns the bare Wigner-D (no extra factor){on}")
 
 
 def check_cg(ctx: Check, tree: Tree) -> None:
@@ -111,7 +205,7 @@ def check_cg(ctx: Check, tree: Tree) -> None:
     te = decay_evaluator(tree)
     te.fork = True  # every path of the function is judged separately
     fn = tree.func(f"{HEL}::formulate_isobar_cg_coefficients")
-    res = te.eval_function(fn, [Opaque(("transition",)), sym("node_id")])
+    res = te.eval_function(fn, [TRANSITION, NODE_ID])
     from ..terms import PW
 
     paths = [(v, c) for v, c in res.branches] if isinstance(res, PW) else [(res, None)]
@@ -206,20 +300,21 @@ def check_fold(ctx: Check, tree: Tree) -> None:
                 gen = node.generators[0]
                 if not is_chain_iterable(gen.iter, rd):
                     continue
-                n_loops += 1
+                # one generator clause = one loop level (`for t in ts for g in graphs(t)` is the nested loop)
+                n_loops += sum(1 for i_, g_ in enumerate(node.generators) if i_ == 0 or is_chain_iterable(g_.iter, rd) or _uses_targets(g_.iter, node.generators[:i_]))
                 key = f"{fn.qual}::comprehension over {unparse(gen.iter)[:40]}"
                 problems = []
-                if len(node.generators) != 1:
-                    problems.append("nested generators")
-                if gen.ifs:
-                    problems.append(f"elements are filtered: if {unparse(gen.ifs[0])[:40]}")
-                why = _iter_is_whole(gen.iter)
-                if why:
-                    problems.append(why)
-                targets = {n.id for n in ast.walk(gen.target) if isinstance(n, ast.Name)}
-                used = {n.id for n in ast.walk(node.elt) if isinstance(n, ast.Name)}
-                if not (targets & used):
-                    problems.append("the element does not depend on the loop variable")
+                for i_, g_ in enumerate(node.generators):
+                    if g_.ifs:
+                        problems.append(f"elements are filtered: if {unparse(g_.ifs[0])[:40]}")
+                    why = _iter_is_whole(g_.iter)
+                    if why:
+                        problems.append(why)
+                    # every level feeds the next level or the element: no level is iterated for nothing
+                    later = [x.iter for x in node.generators[i_ + 1:]] + [node.elt]
+                    if not any(_uses_targets(x, [g_]) for x in later):
+                        problems.append(f"neither the element nor an inner level depends on the loop variable of `for {unparse(g_.target)} in {unparse(g_.iter)[:30]}`"
+                                        if len(node.generators) > 1 else "the element does not depend on the loop variable")
                 # the comprehension must reach a fold whole
                 consumer = _fold_consumer(node, rd, fn)
                 if consumer is None:
@@ -270,6 +365,12 @@ def check_fold(ctx: Check, tree: Tree) -> None:
     ctx.stats["fold_loops"] = n_loops
     if n_loops < 5:
         raise AnalysisError(f"only {n_loops} loops/comprehensions in the fold chain (5 confirmed)")
+
+
+def _uses_targets(expr: ast.AST, gens: list) -> bool:
+    """Does ``expr`` mention a variable bound by one of the generator clauses?"""
+    targets = {n.id for g in gens for n in ast.walk(g.target) if isinstance(n, ast.Name)}
+    return any(isinstance(n, ast.Name) and n.id in targets for n in ast.walk(expr))
 
 
 def _innermost_loop(node: ast.AST, loop: ast.For) -> bool:
@@ -358,7 +459,8 @@ def check_products(ctx: Check, tree: Tree, symmetrisation: bool = True) -> None:
     ok = "reduce" in calls and "__generate_amplitude_coefficient" in calls and "_formulate_partial_decay" in calls
     ctx.verdict(ok, "R-FOLD", f"{seq.qual}::returns-product", tree.loc(rets[0]),
                 "sequential amplitude = coefficient x reduce(mul, partial decays of all nodes) [x prefactor]", None if ok else sorted(c for c in calls if "::" not in c))
-    mults = [n for n in walk_function(seq.node) if isinstance(n, ast.AugAssign) and isinstance(n.op, ast.Mult) and "__generate_amplitude_prefactor" in _def_calls(tree, seq, rd, n.value)]
+    # `X *= P`, or the same update spelled out: `X = X * P` / `X = P * X` (the factor is `.value` of the pair)
+    mults = [m for m in (_self_multiplication(n) for n in walk_function(seq.node)) if m is not None and "__generate_amplitude_prefactor" in _def_calls(tree, seq, rd, m.value)]
     problems = []
     ret_mults = [r_ for r_ in rets if isinstance(r_.value, ast.BinOp) and isinstance(r_.value.op, ast.Mult)
                  and any("__generate_amplitude_prefactor" in _def_calls(tree, seq, rd, side) for side in (r_.value.left, r_.value.right))]
@@ -373,7 +475,7 @@ def check_products(ctx: Check, tree: Tree, symmetrisation: bool = True) -> None:
     elif len(mults) != 1:
         problems.append(f"{len(mults)} statements multiply the prefactor into the amplitude")
     else:
-        guards = [a for a in ancestors(mults[0]) if isinstance(a, ast.If)]
+        guards = [a for a in ancestors(mults[0].node) if isinstance(a, ast.If)]
         pname = unparse(mults[0].value)
         for g in guards:
             t = g.test
@@ -475,6 +577,24 @@ def check_products(ctx: Check, tree: Tree, symmetrisation: bool = True) -> None:
     ctx.verdict(ok, "R-FOLD", f"{reg.qual}::component", tree.loc(reg.node), "component I_{...} = |sum over the topologies of the group|^2")
 
 
+class _SelfMult:
+    def __init__(self, node: ast.stmt, value: ast.AST) -> None:
+        self.node, self.value = node, value
+
+
+def _self_multiplication(n: ast.AST) -> "_SelfMult | None":
+    """``X *= F`` or ``X = X * F`` / ``X = F * X`` for a plain local X: the statement and the factor F."""
+    if isinstance(n, ast.AugAssign) and isinstance(n.op, ast.Mult):
+        return _SelfMult(n, n.value)
+    if (isinstance(n, ast.Assign) and len(n.targets) == 1 and isinstance(n.targets[0], ast.Name)
+            and isinstance(n.value, ast.BinOp) and isinstance(n.value.op, ast.Mult)):
+        x = n.targets[0].id
+        for me, factor in ((n.value.left, n.value.right), (n.value.right, n.value.left)):
+            if isinstance(me, ast.Name) and me.id == x and not any(isinstance(m, ast.Name) and m.id == x for m in ast.walk(factor)):
+                return _SelfMult(n, factor)
+    return None
+
+
 def _product_leaves(node: ast.AST, out: list) -> bool:
     if isinstance(node, ast.BinOp) and isinstance(node.op, ast.Mult):
         return _product_leaves(node.left, out) and _product_leaves(node.right, out)
@@ -492,6 +612,25 @@ def _anc2(node):
     from ..loader import ancestors as _a
 
     return _a(node)
+
+
+def _group_store_key(n: ast.AST) -> ast.AST | None:
+    """The key expression if ``n`` adds an element to the list kept under a key of a mapping:
+    ``m[key].append(x)`` (defaultdict, or after `if key not in m: m[key] = []`), ``m.setdefault(key, []).append(x)``,
+    ``m[key] = m.get(key, []) + [x]`` / ``m[key] = [*m.get(key, []), x]``."""
+    if isinstance(n, ast.Call) and isinstance(n.func, ast.Attribute) and n.func.attr in {"append", "extend"}:
+        recv = n.func.value
+        if isinstance(recv, ast.Subscript) and not isinstance(recv.slice, ast.Slice):
+            return recv.slice
+        if isinstance(recv, ast.Call) and isinstance(recv.func, ast.Attribute) and recv.func.attr == "setdefault" and len(recv.args) == 2 and not recv.keywords:
+            return recv.args[0]
+    if isinstance(n, ast.Assign) and len(n.targets) == 1 and isinstance(n.targets[0], ast.Subscript) and not isinstance(n.targets[0].slice, ast.Slice):
+        mapping, key = unparse(n.targets[0].value), unparse(n.targets[0].slice)
+        gets = [c for c in ast.walk(n.value) if isinstance(c, ast.Call) and isinstance(c.func, ast.Attribute) and c.func.attr == "get"
+                and unparse(c.func.value) == mapping and len(c.args) == 2 and unparse(c.args[0]) == key and isinstance(c.args[1], (ast.List, ast.Tuple)) and not c.args[1].elts]
+        if len(gets) == 1 and isinstance(n.value, (ast.BinOp, ast.List)):
+            return n.targets[0].slice
+    return None
 
 
 def check_group_key(ctx: Check, tree: Tree, state_identity: bool = True) -> None:
@@ -513,11 +652,11 @@ def check_group_key(ctx: Check, tree: Tree, state_identity: bool = True) -> None
                     None if sorted_same else "transitions are ordered by topology first, so the same outer helicities recur once per topology: all but the last run of each key are dropped - whole topologies vanish from the coherent sum")
         if not sorted_same:
             return
-    stores = [n for n in walk_function(fn.node) if isinstance(n, ast.Call) and isinstance(n.func, ast.Attribute) and n.func.attr == "append"
-              and isinstance(n.func.value, ast.Subscript)]
+    stores = [k for k in (_group_store_key(n) for n in walk_function(fn.node)) if k is not None]
     if len(stores) != 1:
-        raise AnalysisError("group_by_spin_projection: expected one `groups[key].append(transition)`")
-    key_expr = stores[0].func.value.slice
+        raise AnalysisError("group_by_spin_projection: expected one store of the transition into the list of its key "
+                            "(`groups[key].append(t)` / `groups.setdefault(key, []).append(t)`)")
+    key_expr = stores[0]
     rd = RD(fn.node)
     # all expressions the key is built from, looking into same-module helpers
     exprs: list[tuple[ast.AST, FuncInfo]] = [(key_expr, fn)] + [(d.value, fn) for d in rd.closure(rd.uses(key_expr)) if d.value is not None]
